@@ -54,7 +54,7 @@ ASSUMPTIONS = ['when a whole work routine raises, the base class fails every '
                'a cancel/timeout may lose the race against completion: then '
                'the truthful outcome is accepted']
 SHARDS   = {'quick': 16, 'thorough': 16}
-TIMEOUT  = {'quick': 420, 'thorough': 3400}
+TIMEOUT  = {'quick': 600, 'thorough': 5400}
 REQUIRED = {'tasks_judged': 400, 'set:fault_hits': 8, 'second_wave_ok': 50,
             'set:final_states': 3}
 
